@@ -206,6 +206,35 @@ Section Top.
           destruct (alookup kEND rd); inversion Hf; reflexivity. }
         rewrite Hol. lia.
   Qed.
+  (* ---------- the bound is exact: a run that survives max_steps supersteps fails right there ---------- *)
+  Lemma iterate_reaches_eq : forall p g n f (ls ls' : loopstate),
+    reaches p g n ls ls' ->
+    iterate V St ops exec sub sched p g (n + f) ls = iterate V St ops exec sub sched p g f ls'.
+  Proof.
+    intros p g n f ls ls' H. induction H as [ls|n ls ls1 ls2 Hs Hr IH]; [reflexivity|].
+    simpl. rewrite Hs. exact IH.
+  Qed.
+
+  Theorem pregel_limit_exact : forall p g x s ls,
+    pregel_graph g -> sub_fail_nonempty V St sub -> sub_log_below ->
+    reachable p g x s (max_steps g) ls ->
+    run_flat p g x s = (Fail [mkerr eMaxSteps] (ls_log V St ls), ls_st V St ls) /\
+    own_entries p (ls_log V St ls) = S (max_steps g).
+  Proof.
+    intros p g x s ls Hg Hsub Hb Hreach.
+    destruct (reachable_inv _ _ _ _ _ _ Hg Hsub Hreach) as [Hinv Hstep].
+    destruct Hreach as [cs [ready [Hc [He Hr]]]].
+    split.
+    - unfold Graph.run_flat. rewrite (init_chans_pregel V g (proj1 Hg)), Hc, He.
+      unfold loop_fuel. rewrite (proj1 Hg).
+      replace (S (max_steps g)) with (max_steps g + 1)%nat by lia.
+      rewrite (iterate_reaches_eq _ _ _ 1 _ _ Hr). simpl.
+      unfold Graph.step, step_limit_hit. rewrite (proj1 Hg), Hstep, Nat.leb_refl. reflexivity.
+    - destruct (pregel_init_frontier V St ops p g x s cs ready Hg Hc He) as [Hinv0 _].
+      rewrite (reaches_own_entries _ _ _ _ _ Hg Hsub Hb Hinv0 Hr). simpl.
+      unfold own_entries, log_steps_at, run_marker. simpl.
+      destruct (list_eq_dec _ _ _) as [_|E]; [reflexivity|exfalso; apply E; reflexivity].
+  Qed.
 End Top.
 
 (* ================= instances for nested runs ================= *)
@@ -238,6 +267,60 @@ Section NestTop.
   Proof.
     intros f F p g x s Hg. rewrite run_nest_S.
     apply pregel_run_log_bounded; [exact Hg|apply nest_sub_fail_nonempty|apply nest_sub_log_below].
+  Qed.
+
+  (* the one-step and whole-run theorems for a graph anywhere in a forest: no hypothesis about sub-graphs *)
+  Theorem pregel_nest_frontier : forall f F p g (ls ls' : loopstate V St) results sublog s',
+    pregel_graph g -> pregel_inv V St ls ->
+    submit V St ops exec (nest_sub V St ops exec sched f F) p g (ls_next V St ls) (ls_st V St ls) = (results, sublog, s') ->
+    step V St ops exec (nest_sub V St ops exec sched f F) sched p g ls = Continue ls' ->
+    let outs := task_outputs V results in
+    pregel_inv V St ls' /\
+    ls_step V St ls' = S (ls_step V St ls) /\
+    akeys outs = akeys (ls_next V St ls) /\
+    ls_log V St ls' = ls_log V St ls ++ [step_entry V p (ls_next V St ls)] ++ sublog /\
+    (forall t, In t (akeys (ls_next V St ls')) <-> sent V ops g outs t <> []) /\
+    (forall t v, In (t, v) (ls_next V St ls') ->
+       exists m, get_merge V ops (collect (sent V ops g outs t)) = Ok m /\ v = pre_node V ops g t m) /\
+    outs_legal V ops g outs.
+  Proof.
+    intros f F p g ls ls' results sublog s' Hg Hinv Hs H.
+    exact (pregel_step_frontier V St ops exec _ sched p g ls ls' results sublog s' Hg
+             (nest_sub_fail_nonempty V St ops exec sched f F) Hinv Hs H).
+  Qed.
+
+  Theorem pregel_nest_end_first : forall f F p g x s v l s',
+    pregel_graph g ->
+    run_nest V St ops exec sched (S f) F p g x s = (Done v l, s') ->
+    (l = [run_marker V p] /\ s' = s /\ sent V ops g [(kSTART, x)] kEND <> [] /\
+     exists m, get_merge V ops (collect (sent V ops g [(kSTART, x)] kEND)) = Ok m /\ v = pre_node V ops g kEND m)
+    \/
+    (exists n ls results sublog,
+       reachable V St ops exec (nest_sub V St ops exec sched f F) sched p g x s n ls /\
+       submit V St ops exec (nest_sub V St ops exec sched f F) p g (ls_next V St ls) (ls_st V St ls) = (results, sublog, s') /\
+       sent V ops g (task_outputs V results) kEND <> [] /\
+       (exists m, get_merge V ops (collect (sent V ops g (task_outputs V results) kEND)) = Ok m
+                  /\ v = pre_node V ops g kEND m) /\
+       l = ls_log V St ls ++ [step_entry V p (ls_next V St ls)] ++ sublog /\
+       sent V ops g [(kSTART, x)] kEND = [] /\
+       (forall m lsm rm sm stm, (m < n)%nat ->
+          reachable V St ops exec (nest_sub V St ops exec sched f F) sched p g x s m lsm ->
+          submit V St ops exec (nest_sub V St ops exec sched f F) p g (ls_next V St lsm) (ls_st V St lsm) = (rm, sm, stm) ->
+          sent V ops g (task_outputs V rm) kEND = [])).
+  Proof.
+    intros f F p g x s v l s' Hg H. rewrite run_nest_S in H.
+    exact (pregel_end_first_run V St ops exec _ sched p g x s v l s' Hg
+             (nest_sub_fail_nonempty V St ops exec sched f F) H).
+  Qed.
+
+  Theorem pregel_nest_limit_exact : forall f F p g x s ls,
+    pregel_graph g ->
+    reachable V St ops exec (nest_sub V St ops exec sched f F) sched p g x s (max_steps g) ls ->
+    run_nest V St ops exec sched (S f) F p g x s = (Fail [mkerr eMaxSteps] (ls_log V St ls), ls_st V St ls) /\
+    own_entries V p (ls_log V St ls) = S (max_steps g).
+  Proof.
+    intros f F p g x s ls Hg Hr. rewrite run_nest_S.
+    apply pregel_limit_exact; [exact Hg|apply nest_sub_fail_nonempty|apply nest_sub_log_below|exact Hr].
   Qed.
 
   (* the root run *)
